@@ -11,6 +11,12 @@ type Iterator struct {
 	inner     skiplist.Iterator
 	didSeek   bool
 	seekWasOK bool
+
+	// exhausted is set when a Seek found nothing at or after the key: the
+	// iterator is at the end. goskiplist leaves its iterator on the list's
+	// header in that case, so a further Next() would start from the first
+	// element again.
+	exhausted bool
 }
 
 func New(inner skiplist.Iterator) *Iterator {
@@ -23,6 +29,8 @@ func (iter *Iterator) Next() (ok bool) {
 	if iter.didSeek {
 		iter.didSeek = false
 		return iter.seekWasOK
+	} else if iter.exhausted {
+		return false
 	} else {
 		return iter.inner.Next()
 	}
@@ -56,6 +64,7 @@ func (iter *Iterator) Seek(key interface{}) (ok bool) {
 	iter.didSeek = true
 	ok = iter.inner.Seek(key)
 	iter.seekWasOK = ok
+	iter.exhausted = !ok
 	return ok
 }
 
